@@ -114,6 +114,12 @@ type Exec struct {
 	regions    map[*ssa.BasicBlock]*regionInfo
 	garbage    map[string]bool
 	knownRaces map[string]bool
+	netStream  []*term.T
+	netCuts    int
+	netDribble bool
+	netDgrams  [][]*term.T
+	netWrites  [][]*term.T
+	netClosed  int
 	tickers    map[*Object]*Timer
 
 	// statistics (cumulative)
@@ -440,6 +446,7 @@ func (e *Exec) resetPath(prefix []Decision) {
 	e.tickers = map[*Object]*Timer{}
 	e.garbage = map[string]bool{}
 	e.knownRaces = nil
+	e.netStream, e.netDgrams, e.netWrites, e.netCuts, e.netDribble, e.netClosed = nil, nil, nil, 0, false, 0
 	for _, d := range prefix {
 		if d.Uncertain {
 			e.uncertain = true
